@@ -6,6 +6,8 @@ package main
 //	gosym replay /verif/replays/C12/1.json
 
 import (
+	"runtime/debug"
+	"runtime/pprof"
 	"bufio"
 	"encoding/json"
 	"flag"
@@ -42,16 +44,25 @@ func main() {
 	arg := os.Args[2]
 	fs := flag.NewFlagSet("gosym", flag.ExitOnError)
 	tier := fs.String("tier", envOr("VERIF_TIER", "quick"), "quick or thorough")
-	workers := fs.Int("workers", 8, "parallel workers")
+	workers := fs.Int("workers", 16, "parallel workers")
 	solver := fs.String("solver", "z3", "z3, z3-new or cvc5")
 	only := fs.String("entry", "", "run only this entry")
 	repo := fs.String("repo", envOr("VERIF_REPO", "/repo"), "repository root")
 	budget := fs.Int("budget", 0, "wall-clock budget in seconds (0 = tier default)")
 	noEvidence := fs.Bool("no-evidence", false, "do not write the evidence file")
+	prof := fs.String("cpuprofile", "", "write a CPU profile")
 	fs.Parse(os.Args[3:])
+	debug.SetGCPercent(400)
+	if *prof != "" {
+		f, _ := os.Create(*prof)
+		pprof.StartCPUProfile(f)
+		defer pprof.StopCPUProfile()
+	}
 	switch cmd {
 	case "check":
-		os.Exit(runCheck(arg, *tier, *workers, *solver, *only, *repo, *budget, !*noEvidence))
+		rc := runCheck(arg, *tier, *workers, *solver, *only, *repo, *budget, !*noEvidence)
+		pprof.StopCPUProfile()
+		os.Exit(rc)
 	case "replay":
 		os.Exit(runReplay(arg, *solver, *repo))
 	}
